@@ -13,6 +13,11 @@ use crate::world::World;
 
 pub struct C02;
 
+// thorough tier: every single write fault (fd 1 / fd 2, one-shot / persistent)
+// at every write index < 32 of every corpus script
+pub const ENUM_P: u64 = 352;
+pub const ENUM_E: u64 = 4 * 32;
+
 const WORLD_DIMS: &[&str] = &["rand", "stdout", "stderr", "merged", "stdin", "cwd_name", "spelling", "rust_backtrace", "stack"];
 
 fn pick_program(ctx: &Ctx, rng: &mut Rng) -> programs::Picked {
@@ -36,7 +41,7 @@ impl Property for C02 {
         if tier == "thorough" { 1_200_000 } else { 40_000 }
     }
     fn rule(&self) -> String {
-        "case = (program from W1|W4|W2|W3) x (world subset: hash keys, sink kinds, 2>&1, stdin, cwd, spelling, RUST_BACKTRACE, stack limit; 3% non-UTF-8 argv[1]) x (fault plan: 1 fault in 85% of cases, 2-4 otherwise, drawn from write errors/torn writes on fd 1 and fd 2 at a write index of the fault-free run (6 errnos, one-shot or persistent), read errors, open errors, getcwd errors, truncated delivery, stored-byte corruption, plus chunking/EINTR); oracle: exit status in {0,103}, no signal, no hang; non-trivial = at least one fault fired or argv[1] not UTF-8; distinct = distinct (program, world, plan)".to_string()
+        "thorough tier additionally enumerates every single write fault (fd 1 and fd 2, one-shot ENOSPC and persistent EIO/EPIPE) at every write index < 32 of every corpus script; sampled cases: case = (program from W1|W4|W2|W3) x (world subset: hash keys, sink kinds, 2>&1, stdin, cwd, spelling, RUST_BACKTRACE, stack limit; 3% non-UTF-8 argv[1]) x (fault plan: 1 fault in 85% of cases, 2-4 otherwise, drawn from write errors/torn writes on fd 1 and fd 2 at a write index of the fault-free run (6 errnos, one-shot or persistent), read errors, open errors, getcwd errors, truncated delivery, stored-byte corruption, plus chunking/EINTR); oracle: exit status in {0,103}, no signal, no hang; non-trivial = at least one fault fired or argv[1] not UTF-8; distinct = distinct (program, world, plan)".to_string()
     }
     fn assumptions(&self) -> Vec<String> {
         vec![
@@ -49,7 +54,23 @@ impl Property for C02 {
         vec!["touch:stdout-error".into(), "touch:stderr-error".into(), "touch:read-error".into(), "touch:open-error".into(), "touch:cwd-error".into(), "touch:argv-bytes".into(), "touch:real-epipe".into()]
     }
 
-    fn gen_case(&self, ctx: &Ctx, worker: usize, rng: &mut Rng, _index: u64) -> Case {
+    fn gen_case(&self, ctx: &Ctx, worker: usize, rng: &mut Rng, index: u64) -> Case {
+        if ctx.tier == "thorough" && index < ENUM_P * ENUM_E && !ctx.corpus.is_empty() {
+            let prog_i = (index % ENUM_P) as usize % ctx.corpus.len();
+            let slot = index / ENUM_P;
+            let sc = &ctx.corpus[prog_i];
+            let n = slot / 4;
+            let (fd, act) = match slot % 4 {
+                0 => (1, crate::plan::Act::Err(crate::plan::ENOSPC)),
+                1 => (1, crate::plan::Act::PErr(crate::plan::EIO)),
+                2 => (2, crate::plan::Act::Err(crate::plan::ENOSPC)),
+                _ => (2, crate::plan::Act::PErr(crate::plan::EPIPE)),
+            };
+            let mut plan = Plan::new();
+            plan.items.push(Item::Write { fd, n, act });
+            let aux = serde_json::json!({"enum": {"program": prog_i, "slot": slot}});
+            return Case { label: format!("W1:{}", sc.name), program: sc.src.clone(), aux, world: World::reference(), plan };
+        }
         let p = pick_program(ctx, rng);
         let reference = ctx.reference(worker, &p.program);
         let mut world = if rng.chance(1, 2) { World::random(rng, WORLD_DIMS) } else { World::reference() };
@@ -102,6 +123,16 @@ impl Property for C02 {
 
     fn check(&self, ctx: &Ctx, worker: usize, case: &Case) -> Outcome {
         let mut out = Outcome::default();
+        if let Some(e) = case.aux.get("enum") {
+            let slot = e.get("slot").and_then(|v| v.as_u64()).unwrap_or(0);
+            let reference = ctx.reference(worker, &case.program);
+            let fd = if slot % 4 < 2 { 1 } else { 2 };
+            if slot / 4 >= faults::count_writes(&reference, fd) {
+                out.skipped = Some("enum-slot-beyond-run".into());
+                return out;
+            }
+            out.probes.push("enum:case".into());
+        }
         let r = ctx.run(worker, &case.program, &case.world, &case.plan);
         out.io_events = r.events.len() as u64;
         out.history_shape = r.history_shape();
